@@ -17,6 +17,7 @@ CATALOGUE = [
     ('mutant', P, "            if np.iscomplexobj(lyot):\n                lyot = np.conj(lyot)\n\n            cbar = dbar * lyot", "            cbar = dbar * lyot", 'C06.conj', 'Lyot stop never conjugated'),
     ('mutant', P, "        Gbar = 2 * intensity_bar * self.data", "        Gbar = intensity_bar * self.data", 'C06.const', 'intensity companion loses the 2'),
     ('mutant', P, "        k = 2 * np.pi / self.wavelength / 1e3  # um -> nm", "        k = 2 * np.pi / self.wavelength  # um -> nm", 'C06.const', 'phase companion loses nm->um'),
+    ('mutant', P, "            phase_prefix = 1j * 2 * np.pi / wavelength / 1e3  # / 1e3 does nm-to-um for phase on a scalar\n            P = amplitude", "            phase_prefix = 1j * 2 * np.pi / wavelength / 1e6  # / 1e3 does nm-to-um for phase on a scalar\n            P = amplitude", 'C06.const', 'forward phase in other units than the companion'),
     ('mutant', O, "        out[:, ind_lookahead] += xbar[:, ind_compute]\n", "        out[:, ind_compute] += xbar[:, slice(0, end-2)]\n", 'C06.fd', 'backprop_x look-behind (pinned defect)'),
     ('mutant', O, "        end = xbar.shape[0]\n", "        end = xbar.shape[1]\n", 'C06.fd', 'backprop_y bounds from axis 1'),
     ('mutant', A, "        return self.a*(1 - fx**2)", "        return (1 - fx**2)", 'C06.activation', 'tanh derivative loses the slope'),
